@@ -1,57 +1,116 @@
 /-
   C12 — Broker keep-alive is kept for connected and sleeping clients.
 
-  The property is FALSE of the code (and of the model, which agrees with it): three families of
-  histories in which the client meets its obligations and the broker nevertheless sees nothing for
-  more than 1.5 × keep-alive are recorded as known findings (known_findings.json, signatures
-  `broker-starved/…`): (1) client traffic the gateway answers without talking to the broker (a
-  REGISTER of a known topic, a CONNECT of a sleeping client, an acknowledgement nobody waits for …),
-  (2) a sleep no longer than the keep-alive starts no pinger, (3) the pinger's first PINGREQ goes
-  out a full keep-alive after the client fell asleep, whatever time has passed since the last packet
-  to the broker.  What IS proved (`…_partial`), for ALL states of the gateway model:
-  * `c12_partial_forwarded`: while the client is active a PINGREQ, and every PUBREL, is forwarded
-    to the broker at once (with C01 `c01_forward`, C03 `c03_subscribe` / `c03_unsubscribe` for
-    PUBLISH / SUBSCRIBE / UNSUBSCRIBE that have an MQTT counterpart);
-  * `c12_partial_pinger`: a sleep longer than the keep-alive starts a pinger whose ticks are one
-    keep-alive apart, from one keep-alive after falling asleep until the end of the announced sleep
-    (`c12_partial_pinger_ticks`: a tick sends PINGREQ and re-arms one period later);
-  * `c12_no_pinger_for_short_sleep`: the second family, stated as what the code does.
-  The monitor `Spec.c12` evaluates the full property on implementation traces of clients that
-  meet their obligations (generator profile `keepalive`); a starvation outside the three recorded
-  families (`…/sleep-pinger-silent`, `…/unexplained`) is a violation.
+  (Until the repair "fix: keep the broker connection alive on the client's behalf" the property was
+  false of the code: four families of histories were recorded as known findings — client traffic the
+  gateway answers itself, sleeps no longer than the keep-alive, the first sleep ping a full keep-alive
+  late, sleep cycles continued by PINGREQ.  They are `fixed:` entries of known_findings.json now; their
+  witnesses `w-c12-*` stay in the corpus.)
+
+  Theorems about the gateway model, for ALL states:
+  * `c12_forwarded`: while the client is active a PINGREQ, and every PUBREL, is forwarded to the broker at
+    once (with C01 `c01_forward`, C03 `c03_subscribe` / `c03_unsubscribe` for PUBLISH / SUBSCRIBE /
+    UNSUBSCRIBE that have an MQTT counterpart);
+  * `c12_fresh_after_keepBrokerAlive` / `c12_client_datagram_refreshes`: after EVERY client datagram that a
+    connected session (active, asleep or awake; keep-alive ≠ 0) has handled without an error, the newest
+    packet written to the broker is less than half a keep-alive old — whatever the gateway answered
+    itself (a REGISTER of a known topic, a CONNECT or PINGREQ of a sleeping client, a DISCONNECT with a
+    duration, an acknowledgement nobody waits for): if nothing younger is in the log, a PINGREQ is written
+    at that instant;
+  * `c12_pinger_for_every_sleep`: EVERY announced sleep (shorter or longer than the keep-alive) starts
+    one pinger: first tick one keep-alive after falling asleep, period one keep-alive, until the end of
+    the announced duration; `c12_pinger_for_every_cycle`: so does every wake-up, for the next cycle;
+  * `c12_pinger_ticks`: a tick writes a PINGREQ and re-arms one period later.
+  Together: while active, two client datagrams are at most one keep-alive apart (the client's obligation)
+  and each leaves a broker packet younger than half a keep-alive, so two broker packets are less than 1.5
+  keep-alives apart; asleep, the datagram that begins a cycle (DISCONNECT, PINGREQ) does the same and the
+  pinger ticks one keep-alive apart until the client shows up again (its obligation: within the announced
+  duration).  That composition over a whole timed history is NOT a Lean theorem: the monitor `Spec.c12`
+  evaluates the full property on implementation traces of clients that meet their obligations
+  (generator profile `keepalive`); any starvation is a violation.
 -/
 import Bisquitt.Props.C03
+import Bisquitt.Props.C34
 import Bisquitt.Spec.Gateway
 
 namespace Bisquitt.Gw
 open Bisquitt Gw
 
-/-- **C12 (partial).** PINGREQ and PUBREL of an active client reach the broker at once. -/
-theorem c12_partial_forwarded (g : Gw) (h : g.st = .active) (mid : UInt16) (cid : Bytes) :
+/-- **C12.** PINGREQ and PUBREL of an active client reach the broker at once. -/
+theorem c12_forwarded (g : Gw) (h : g.st = .active) (mid : UInt16) (cid : Bytes) :
     (g.handleSn (.pingreq cid)).outs = (g.now, Out.mq .pingreq) :: g.outs ∧
     (g.handleSn (.pubrel mid)).outs = (g.now, Out.mq (.pubrel mid)) :: g.outs :=
   ⟨(c03_sn_simple g h mid cid).2, (c03_sn_simple g h mid cid).1⟩
 
-/-- **C12 (partial).** A sleep longer than the keep-alive starts a pinger: first tick one keep-alive
-    after falling asleep, period one keep-alive, cancelled at the end of the announced sleep. -/
-theorem c12_partial_pinger (g : Gw) (d : UInt16) (h : g.keepAlive ≠ 0 ∧ d > g.keepAlive) :
-    (g.maybeSleepPinger d).pingers = g.pingers ++
-      [{ next := g.now + g.keepAlive.toNat * 1000, cancelAt := g.now + d.toNat * 1000, period := g.keepAlive.toNat * 1000 }] := by
-  unfold maybeSleepPinger startSleepPinger
-  simp [h]
+/-- the newest packet to the broker is less than half a keep-alive old -/
+def BrokerFresh (g : Gw) : Prop :=
+  ∃ t, g.lastMqTime = some t ∧ (g.now - t) * 2 < g.keepAlive.toNat * 1000
 
-/-- the second family of known findings, as what the code does: no pinger for a short sleep -/
-theorem c12_no_pinger_for_short_sleep (g : Gw) (d : UInt16) (h : ¬ (g.keepAlive ≠ 0 ∧ d > g.keepAlive)) :
-    (g.maybeSleepPinger d).pingers = g.pingers := by
-  unfold maybeSleepPinger; simp [h]
+theorem lastMqTime_pingBroker (g : Gw) : g.pingBroker.lastMqTime = some g.now := by
+  simp [pingBroker, mqttSend, emit, lastMqTime, isMqOut]
 
-/-- **C12 (partial).** A tick of a pinger: PINGREQ to the broker, next tick one period later. -/
-theorem c12_partial_pinger_ticks (g : Gw) (i : Nat) :
+/-- **C12.** The hook that runs after every client datagram leaves the broker connection fresh. -/
+theorem c12_fresh_after_keepBrokerAlive (g : Gw) (ha : g.alive = true) (hk : g.keepAlive ≠ 0) (hs : g.st ≠ .disconnected) :
+    BrokerFresh g.keepBrokerAlive := by
+  have hpos : 0 < g.keepAlive.toNat * 1000 := by
+    have : g.keepAlive.toNat ≠ 0 := fun e => hk (by
+      apply UInt16.toNat_inj.mp; simpa using e)
+    omega
+  have hping : BrokerFresh g.pingBroker := by
+    refine ⟨g.now, lastMqTime_pingBroker g, ?_⟩
+    have : g.pingBroker.now = g.now := rfl
+    have hka : g.pingBroker.keepAlive = g.keepAlive := rfl
+    rw [this, hka]; simpa using hpos
+  unfold keepBrokerAlive
+  simp only [ha, hk, hs, Bool.not_true, Bool.false_eq_true, or_self, if_false]
+  split
+  · rename_i t ht
+    split
+    · rename_i hf; exact ⟨t, ht, hf⟩
+    · exact hping
+  · exact hping
+
+/-- **C12.** Every client datagram that a connected session handles without an error leaves the broker
+    connection fresh, whether or not the gateway has forwarded anything for it. -/
+theorem c12_client_datagram_refreshes (g : Gw) (bytes : Bytes) (hd : Header) (p : Pkt)
+    (hdec : decode (bytes.take Gen.MaxPacketLen) = .ok (hd, p))
+    (ha : (g.handleSn p).alive = true) (hk : (g.handleSn p).keepAlive ≠ 0) (hs : (g.handleSn p).st ≠ .disconnected) :
+    BrokerFresh (g.handleEvent (.sn bytes)) := by
+  simp only [handleEvent, hdec]
+  exact c12_fresh_after_keepBrokerAlive _ ha hk hs
+
+/-- **C12.** Every announced sleep starts one pinger (`c34_pinger_replaced`: and only one), whatever its
+    length, and remembers the duration for the cycles to come. -/
+theorem c12_pinger_for_every_sleep (g : Gw) (d : UInt16) (hk : g.keepAlive ≠ 0) :
+    (g.handleSleep d).pingers =
+      [{ next := g.now + g.keepAlive.toNat * 1000, cancelAt := g.now + d.toNat * 1000, period := g.keepAlive.toNat * 1000 }] ∧
+    (g.handleSleep d).sleepDur = d := by
+  refine ⟨by rw [c34_pinger_replaced]; simp [hk], ?_⟩
+  unfold handleSleep clearBufferUnlessAsleep armSleepPinger
+  split <;> (split <;> simp [snSendNow, emit, setSt, startSleepPinger, cancelSleepPinger, clearBuffer])
+
+/-- **C12.** A wake-up starts the pinger of the next cycle: the announced duration applies again. -/
+theorem c12_pinger_for_every_cycle (g : Gw) (h : g.st = .asleep) (hk : g.keepAlive ≠ 0) :
+    g.handlePingreq.pingers =
+      [{ next := g.now + g.keepAlive.toNat * 1000, cancelAt := g.now + g.sleepDur.toNat * 1000,
+         period := g.keepAlive.toNat * 1000 }] := by
+  rw [c34_pinger_of_the_next_cycle g h]; simp [hk]
+
+/-- **C12.** A tick of a pinger: PINGREQ to the broker, next tick one period later. -/
+theorem c12_pinger_ticks (g : Gw) (i : Nat) :
     (g.firePing i).outs = (g.now, Out.mq .pingreq) :: g.outs ∧
     ∀ p, g.pingers[i]? = some p → (g.firePing i).pingers[i]? = some { p with next := p.next + p.period } := by
-  unfold firePing
+  unfold firePing pingBroker
   refine ⟨by simp [mqttSend, emit], ?_⟩
   intro p hp
   simp [mqttSend, emit, List.getElem?_mapIdx, hp]
+
+/-- non-vacuity: a connected session whose last packet to the broker is 40 s old (keep-alive 60 s) and
+    which has just answered a client datagram itself pings the broker; one that wrote 10 s ago does not -/
+example :
+    let g : Gw := { (Gw.init ⟨false, none, none, 10, 2, []⟩ 1 10) with
+      st := .active, keepAlive := 60, now := 50000, outs := [(10000, .mq .pingreq)] }
+    g.keepBrokerAlive.outs = [(50000, .mq .pingreq), (10000, .mq .pingreq)] ∧
+    ({ g with now := 20000 } : Gw).keepBrokerAlive.outs = [(10000, .mq .pingreq)] := by decide
 
 end Bisquitt.Gw
